@@ -176,6 +176,8 @@ type c12Case struct {
 	// Reregistered (call Activate only): the application has registered other payload types for the operation at run time,
 	// so a well-formed answer decodes to a Go type the fluent builder does not expect (registration restored afterwards)
 	Reregistered bool `json:"operation_reregistered,omitempty"`
+	// OnBatchErr (call Batch): the batch is sent with BatchOpt and OnBatchErr(continue | stop | undo); "" = plain Batch
+	OnBatchErr string `json:"on_batch_error_option,omitempty"`
 }
 
 // altActivateResp is what an application might register for Activate in place of the library's response payload.
@@ -522,7 +524,16 @@ func c12Run(c c12Case) (sig string, err error) {
 			reqs = append(reqs, &payloads.ActivateRequestPayload{UniqueIdentifier: fmt.Sprintf("item-%d", i)})
 		}
 		if perr := safely(func() error {
-			res, berr = cl.Batch(ctx, reqs...)
+			switch c.OnBatchErr {
+			case "continue":
+				res, berr = cl.BatchOpt(ctx, reqs, kmipclient.OnBatchErr(kmip.BatchErrorContinuationOptionContinue))
+			case "stop":
+				res, berr = cl.BatchOpt(ctx, reqs, kmipclient.OnBatchErr(kmip.BatchErrorContinuationOptionStop))
+			case "undo":
+				res, berr = cl.BatchOpt(ctx, reqs, kmipclient.OnBatchErr(kmip.BatchErrorContinuationOptionUndo))
+			default:
+				res, berr = cl.Batch(ctx, reqs...)
+			}
 			return nil
 		}); perr != nil {
 			return "batch-panics", perr
@@ -669,7 +680,7 @@ func c12Run(c c12Case) (sig string, err error) {
 
 func TestC12Responses(t *testing.T) {
 	const name = "TestC12Responses"
-	rec := evid.New("C12", name, "for every fluent builder (26), Request, Batch+Unwrap, the discovery exchange of Dial and the crypto.Signer construction: a generated well-formed response message from a scripted in-memory server - "+
+	rec := evid.New("C12", name, "for every fluent builder (26), Request, Batch+Unwrap (plain or with OnBatchErr continue / stop / undo), the discovery exchange of Dial and the crypto.Signer construction: a generated well-formed response message from a scripted in-memory server - "+
 		"header protocol version {the request's, 1.0, 1.1, 1.4, 2.0, 0.0}, header batch count in {n, n-1, n+1, n+5}, item count n-1..n+2, per item operation {requested, other implemented, unknown, absent}, status {4 named, unnamed}, reason {none, named, unnamed}, message, payload {absent, of the requested operation, of another operation, generic}, Unique Batch Item IDs {echoed in place, in batches of another request item (duplicated or permuted), absent, of the server's own making with 0 / 3 / 12 bytes}; "+
 		"oracle: returns; error or the requested operation's payload type; a failed item surfaces as an error carrying status, reason and message; non-trivial = the response deviates from the conformant one; distinct by case").Attach(t)
 	if rp := evid.LoadReplay(name); rp != nil {
@@ -699,6 +710,7 @@ func TestC12Responses(t *testing.T) {
 		case "Batch":
 			c.BatchSize = rapid.IntRange(2, 4).Draw(rt, "batchsize")
 			c.Plans = []respPlan{drawRespPlan(rt, kmip.OperationActivate, c.BatchSize)}
+			c.OnBatchErr = rapid.SampledFrom([]string{"", "", "continue", "stop", "undo"}).Draw(rt, "onbatcherr")
 			if rapid.IntRange(0, 2).Draw(rt, "iddeviation") == 0 {
 				for i := range c.Plans[0].Items {
 					c.Plans[0].Items[i].IDFrom = rapid.SampledFrom([]int{0, 0, -1, 1, 2, c.BatchSize}).Draw(rt, "idfrom")
